@@ -242,6 +242,15 @@ var chunkings = []struct {
 	}},
 }
 
+// noProgress: stream framing that hands out more frames than the stream has bytes is delivering
+// frames without consuming input (an empty frame leaves every offset unchanged, so the same
+// frame is produced again and again): a livelock, reported without waiting for the watchdog.
+func noProgress(frames, frameLen, streamLen int) {
+	if frames > streamLen+1 {
+		panic(spinViolation{msg: "stream framing delivers frames forever without consuming input"})
+	}
+}
+
 // ---- link service driver ----
 
 var lsInst = map[string]*fwface.NDNLPLinkService{}
@@ -393,7 +402,7 @@ func buildEntries() {
 		add(entry{name: "face.readTlvStream/" + ch.name, tags: tagHeavy | tagPacket, own: -1, slack: func(int) uint64 { return 512 },
 			run: func(b []byte) uint32 {
 				frames := 0
-				err := fwface.VerifC04ReadTlvStream(&chunkReader{data: b, chunk: ch.f(len(b))}, func(f []byte) { frames++ })
+				err := fwface.VerifC04ReadTlvStream(&chunkReader{data: b, chunk: ch.f(len(b))}, func(f []byte) { frames++; noProgress(frames, len(f), len(b)) })
 				if err != nil {
 					return sigOther | uint32(frames)<<8
 				}
@@ -403,7 +412,8 @@ func buildEntries() {
 			run: func(b []byte) uint32 {
 				setThreads(2)
 				l := fwface.VerifC04NewLinkService(7, false, 8800)
-				err := fwface.VerifC04ReadTlvStream(&chunkReader{data: b, chunk: ch.f(len(b))}, func(f []byte) { fwface.VerifC04Handle(l, f) })
+				frames := 0
+				err := fwface.VerifC04ReadTlvStream(&chunkReader{data: b, chunk: ch.f(len(b))}, func(f []byte) { frames++; noProgress(frames, len(f), len(b)); fwface.VerifC04Handle(l, f) })
 				if err != nil {
 					return sigOther | uint32(queued())<<8
 				}
@@ -414,7 +424,12 @@ func buildEntries() {
 			run: func(b []byte) uint32 {
 				pk := 0
 				stdface.VerifC04RunStream(&scriptConn{chunkReader{data: b, chunk: ch.f(len(b))}},
-					func(r enc.ParseReader) error { pk++; spec.ReadPacket(r); return nil },
+					func(r enc.ParseReader) error {
+						pk++
+						noProgress(pk, r.Length(), len(b))
+						spec.ReadPacket(r)
+						return nil
+					},
 					func(err error) error {
 						if err == nil {
 							return errors.New("nil")
